@@ -138,6 +138,13 @@ func TestC14(t *testing.T) {
 		if cr.Intn(4) > 0 {
 			formatted = map[string][]byte{"other": []byte("untouched")}
 		}
+		// an event that was formatted before (another formatter earlier in the pipeline, an earlier payload):
+		// the line stored now must be the image of the payload as it is now
+		var stale []byte
+		if formatted != nil && cr.Intn(4) == 0 {
+			stale = []byte(rt.Pick(cr, []string{"{\"created_at\":\"2001-01-01T00:00:00Z\",\"event_type\":\"earlier\",\"payload\":\"earlier payload\"}\n", "not json at all", ""}))
+			formatted[eventlogger.JSONFormat] = stale
+		}
 		ev := &eventlogger.Event{Type: eventlogger.EventType(typ), CreatedAt: created, Formatted: formatted, Payload: payload}
 		before := snapshotValue(payload)
 		if i%64 == 0 {
@@ -145,6 +152,9 @@ func TestC14(t *testing.T) {
 		}
 		out, err := nodeImpl.Process(ctx, ev)
 		desc := fmt.Sprintf("node=%d predicate=%s type=%q created=%v payload=%.300s", node, predicate, typ, created, before)
+		if stale != nil {
+			desc += fmt.Sprintf(" (json value present before: %q)", stale)
+		}
 		wit := func(extra string) any {
 			st, _ := ev.Format(eventlogger.JSONFormat)
 			return map[string]any{"case": desc, "stored_json": string(st), "err": fmt.Sprint(err), "forwarded": out != nil, "detail": extra}
@@ -163,7 +173,7 @@ func TestC14(t *testing.T) {
 			if err == nil || out != nil {
 				run.Violation("history-pattern:unencodable-accepted", "the payload (or creation time) cannot be encoded but the formatter did not fail", wit(""))
 			}
-			if has {
+			if has && (stale == nil || !bytes.Equal(stored, stale)) {
 				run.Violation("history-pattern:unencodable-stored", "a json value was stored although encoding failed", wit(""))
 			}
 			run.Eval("unencodable|" + fmt.Sprint(node))
